@@ -80,7 +80,8 @@ ASSUMPTIONS = [
     'is counted inconclusive and not judged.',
 ]
 
-CMD_OPS = ['hold', 'release', 'trigger', 'set', 'remove', 'pause', 'resume']
+CMD_OPS = ['hold', 'release', 'trigger', 'set', 'remove', 'pause', 'resume',
+           'stop-point']
 TAIL_ROUNDS = 25
 TOPICS = ['edges', 'families', 'family_proxies', 'jobs', 'tasks',
           'task_proxies']
